@@ -209,23 +209,34 @@ def h_session(ctx, mods, shape):
         dev.on_connect()
         return h
     adb.open = open_
+    if shape.get('unplug') is not None:
+        u.STATE.unplug_at = shape['unplug']
     o = w.try_call('connect')
     if not o.ok:
+        if u.STATE.unplugged:
+            return        # unplugged while connecting: what connect() raises then is not part of the contract
         ctx.fail('connect over USB failed', detail=repr(o.exc))
         return
+    unplugged_failure = False
     for k, spec in enumerate(shape['ops']):
         op = ops.make(spec)
         exp = op.setup(ctx, st, w, k)
         o = op.run(w)
         ctx.observe(op.name, op.observe(o))
+        if not o.ok and u.STATE.unplugged:
+            ctx.check(isinstance(o.exc, (mods.exceptions.UsbReadFailedError, mods.exceptions.UsbWriteFailedError)),
+                      'once the device is unplugged an operation ends with UsbReadFailedError / UsbWriteFailedError', detail=repr(o.exc))
+            unplugged_failure = True
+            break
         if not o.ok:
             ctx.fail('%s over USB raised %s' % (op.name, o.kind()), detail=repr(o.exc))
             return
         op.check(ctx, w, st, o, exp, 'over USB, %s: ' % op.name)
-    dev.decoder.finish()
+    if not unplugged_failure:
+        dev.decoder.finish()
     o = w.try_call('close')
     ctx.check(o.ok, 'close() over USB completes')
-    ctx.check(all(h.closed for h in adb.handles), 'the libusb handle is closed')
+    ctx.check(all(h.closed for h in adb.handles) or u.STATE.unplugged, 'the libusb handle is closed')
     r = w.try_call('shell', 'id')
     ctx.check(not r.ok, 'operations after close() raise')
 
@@ -252,6 +263,8 @@ def shapes(tier, seed):
     out.append({'h': 'unit', 'variant': 'usb', 'steps': ['connect', 'read1500', 'read1025', 'read300', 'close'], 't': 'sym', 'default': 'sym', 'inbox': 4000})
     out.append({'h': 'session', 'variant': 'usb', 'by': None, 'ops': [['shell', {'lens': [1500, 3]}], 'stat'], 'eager': True})
     out.append({'h': 'session', 'variant': 'usb', 'by': None, 'ops': ['shell', ['push', {'size': 3000}]], 'nshort': 1})
+    for k in range(3, 40, (2 if tier == 'quick' else 1)):
+        out.append({'h': 'session', 'variant': 'usb', 'by': 'serial', 'ops': ['shell', 'stat'], 'unplug': k})
     for by in (None, 'serial', 'port'):
         out.append({'h': 'session', 'variant': 'usb', 'by': by, 'ops': ['shell', 'stat', ['pull', {}], ['push', {'size': 5000}]], 'others': 1 if tier == 'quick' else 2})
     return out
